@@ -20,8 +20,8 @@ import (
 	"github.com/pgavlin/dawn/label"
 	starlark_os "github.com/pgavlin/dawn/lib/os"
 	starlark_sh "github.com/pgavlin/dawn/lib/sh"
-	starlark_json "go.starlark.net/lib/json"
 	"github.com/pgavlin/dawn/util"
+	starlark_json "go.starlark.net/lib/json"
 	"go.starlark.net/starlark"
 	"verif.local/sim/simcheck"
 	"verif.local/sim/simrt"
